@@ -700,6 +700,17 @@ func (c *Cluster) execute(a clienttesting.Action, act *Action) (runtime.Object, 
 		if old == nil {
 			return nil, apierrors.NewNotFound(gr(gvr), t.GetName())
 		}
+		// preconditions, as the API server checks them
+		if pre := t.GetDeleteOptions().Preconditions; pre != nil {
+			if om, err := meta.Accessor(old); err == nil {
+				if pre.UID != nil && *pre.UID != om.GetUID() {
+					return nil, apierrors.NewConflict(gr(gvr), t.GetName(), fmt.Errorf("precondition failed: UID in precondition: %v, UID in object meta: %v", *pre.UID, om.GetUID()))
+				}
+				if pre.ResourceVersion != nil && *pre.ResourceVersion != om.GetResourceVersion() {
+					return nil, apierrors.NewConflict(gr(gvr), t.GetName(), fmt.Errorf("precondition failed: resourceVersion in precondition: %v, in object meta: %v", *pre.ResourceVersion, om.GetResourceVersion()))
+				}
+			}
+		}
 		if pod, ok := old.(*corev1.Pod); ok {
 			return nil, c.deletePod(pod)
 		}
